@@ -133,7 +133,7 @@ SPEC_OBJ = r"""
 SPEC_PROP = r"""
     ensures
         (r is Ok, final(scopes).world(), final(names_in_binding)@)
-            == bind_prop(old(scopes).world(), old(names_in_binding)@, *lhs, rhs.0.0@, prop_name.0@, bind_type), // [C13_C20:a_named_property_must_exist_unless_the_target_is_underscore_and_its_value_is_bound_to_the_pattern]
+            == bind_prop(old(scopes).world(), old(names_in_binding)@, *lhs, rhs.0.0@, prop_name.0@, bind_type), // [C13_C14_C20:a_named_property_must_exist_unless_the_target_is_underscore_and_its_value_is_bound_to_the_pattern]
         prop_name.0@ != "_"@ && !rhs.0.0@.contains_key(prop_name.0@) ==> r is Err
             && (r->Err_0 matches Error::AtLoc{source, line, col} && line == prop_name.1.0 && col == prop_name.1.1
                 && (*source matches Error::PropNotFound{name} && name@ == prop_name.0@)), // [C13:missing_property_is_reported_at_the_property_name]
@@ -195,7 +195,7 @@ def build(read):
         parts.value_items(b, read), parts.value_model(True), HASHSET,
         "// ---- verbatim from src/eval/bind.rs", bt,
         "impl Clone for BindType { #[verifier::external_body] fn clone(&self) -> (r: Self) ensures r == *self { unimplemented!() } }\nimpl Copy for BindType {}",
-        MODEL,
+        parts.with_wrapper_ctors(MODEL, b, read),
         "// ---- functions under contract (verbatim bodies; contract text inserted at anchors)",
         f1, f2,
         parts.FOOTER,
